@@ -117,4 +117,19 @@ PROPS = {
         "trusted_base": ["hand-written models of CheckNodeFitness / FilterAndMapPodsByNode tied by the fitness and filter streams; labels.Selector / fields.Selector / Toleration.ToleratesTaint semantics re-implemented in the model"],
         "assumptions": COMMON_ASSUME + ["node names and pod names are unique (API server)", "label keys/values in selectors are syntactically valid (not modelled: labels.NewRequirement key/value validation)"],
     },
+    "C12": {
+        "level_text": "Lean theorems C12_lists_scoped / C12_list_sites_known (obligations on the client.List call sites extracted from the Go source on this run: every list of replica sets, pods or settings carries a namespace option), C12_deletes_owned, C12_create_owned (every replica set the EDS reconcile deletes or creates is in its namespace, carries its name label, is owned by it) about the model of the EDS Reconcile; the real Reconcile runs against a fake API server populated with replica sets and pods of a same-named EDS in another namespace and of another EDS in the same namespace, every write is intercepted and classified own/foreign, and the writes are compared with the model's.",
+        "level_note": TB + "Modelled by hand: the EDS Reconcile as store -> writes (ReconcileEds.lean). The list-site facts come from tools/extract (syntactic: option composite literals and InNamespace calls reaching the List call). Pod-level writes of the replica-set controller are covered by the ers_reconcile stream when registered.",
+        "streams": [("eds_reconcile", 2500, 40000)],
+        "trusted_base": ["tools/extract list-site facts; hand-written L2 model of the EDS Reconcile tied by the eds_reconcile stream (fake client = consistent reads)"],
+        "assumptions": COMMON_ASSUME,
+    },
+    "C19": {
+        "level_text": "Lean theorems C19_frame (only the documented annotation keys change, for every annotation map), C19_refuses / C19_refuses_already / C19_acts / C19_patch_iff (exact acceptance condition per command), C19_writes, C19_fail_targets_canary_ers, and the interpretation theorems composing the command with the controller model: C19_pause_state (-> Canary Paused), C19_unpause_annotations (-> Canary), C19_validate_exact (promotes exactly the replica set named when the command ran, never a later one), C19_fail_rollback / C19_fail_reads (the failure as the controller reads it), C19_rupause_stops_updates / C19_freeze; the real run() bodies execute through shims against a fake API server, the object diff before/after every command is compared with the model and with the frame / refusal / documented-value clauses; the extractor's facts on which annotation keys and client verbs each run() uses are proof obligations (facts_plugin_writes).",
+        "level_note": TB + "Modelled by hand: the eight command bodies as functions of the object they read (Cli.lean). Sequences of up to three commands followed by reconciles are covered by composing these theorems with the controller theorems (C05, C06, C07, C08) rather than by enumeration.",
+        "streams": [("cli", 4000, 80000)],
+        "extra_theorems": [("EdsProofs.FactsBridge", "facts_plugin_writes"), ("EdsProofs.FactsBridge", "facts_keys")],
+        "trusted_base": ["hand-written model of the kubectl-eds run() bodies tied by the cli stream; merge-patch semantics of the fake client"],
+        "assumptions": COMMON_ASSUME + ["annotation maps have unique keys (Go maps)"],
+    },
 }
